@@ -12,15 +12,18 @@ TECH = ("bounded model checking of the real tonic functions: Kani 0.68 harnesses
 
 CLAIMS = {
     "C01": dict(
-        text="For every input inside the stated bounds the solver shows: the encoder appends exactly [flag 0, BE32(len), payload] behind what "
-             "is buffered (encode_item, finish_encoding), one poll of the batching encoder equals an independent reference model for every "
-             "source readiness pattern (chunk boundaries never fall inside a frame, Pending only with an empty buffer), and the decoder's "
-             "header/body steps recognise exactly the complete frames at the front of an arbitrary buffer and consume nothing otherwise. "
-             "Stream-level statements follow from these one-step facts by induction on the invariant named in DESIGN §4/C01; they are not "
-             "separately model-checked.",
-        note="Outside: real gzip/deflate/zstd streams and prost (a byte-copy codec stands in); payloads > 2-3 bytes; more than 2 source events "
-             "per poll; the Streaming::poll_next loop beyond the glue harness of C07. bytes model (vbytes) used for the batching harnesses.",
-        ref="§4 C01"),
+        text="For every input inside the stated bounds the solver shows: the encoder appends exactly [flag, BE32(len), payload] behind what "
+             "is buffered (encode_item, finish_encoding, EncodeBuf), also on the compressed path with an abstract invertible codec standing "
+             "in for flate2/zstd (flag 1, length of the compressor's output, the announced encoding); one poll of the batching encoder "
+             "equals an independent reference model for every source readiness pattern (outcome, chunk length, hand-off; Pending only "
+             "with an empty buffer); the decoder's header/body/short-prefix steps recognise exactly the complete frames at the front of "
+             "an arbitrary buffer, hand exactly the payload (or the decompressor's output) to the codec through DecodeBuf and consume "
+             "nothing otherwise. Stream-level statements follow from these one-step facts by induction on the invariant named in "
+             "DESIGN §4/C01; they are not separately model-checked.",
+        note="Outside: real gzip/deflate/zstd streams and prost (a byte-copy codec and an abstract compressor stand in); payloads > 2 bytes "
+             "on the encoder side; more than 2 source events per poll; the Streaming::poll_next loop. bytes model (vbytes) used for the "
+             "batching harnesses only.",
+        ref="§4 C01, §10.6"),
     "C02": dict(
         text="Narrowed to the codec/status state machines the property names: the batching encoder hands a handler/source error out after "
              "the frames encoded before it (one step, differential vs. reference), and when no grpc-status is available the HTTP-status "
@@ -28,12 +31,12 @@ CLAIMS = {
         note="Outside: client::Grpc / server::Grpc async call shapes, h2 fragmentation, metadata merge, trailers-only detection.",
         ref="§4 C02"),
     "C03": dict(
-        text="Frame bytes written by encode_item/finish_encoding are judged by an independent 5-byte-prefix reference (flag 0, big-endian "
-             "length = payload length, payload untouched) for all small payloads and all limits; one step of the batching encoder never "
-             "emits a byte of a failed message.",
-        note="Outside: request/response pseudo-headers (prepare_request, map_response), the compressor behind flag 1, trailers emission "
-             "through EncodeBody (HeaderMap-heavy, not decidable here).",
-        ref="§4 C03"),
+        text="Frame bytes written by encode_item/finish_encoding are judged by an independent 5-byte-prefix reference (flag 0/1 exactly as a "
+             "compression encoding is in force, big-endian length = payload length, payload untouched) for all small payloads and all "
+             "limits, identity and (abstract-codec) compressed; one step of the batching encoder never emits a byte of a failed message.",
+        note="Outside: request/response pseudo-headers (prepare_request, map_response), that the compressor behind flag 1 really is "
+             "gzip/deflate/zstd, trailers emission through EncodeBody (thorough-tier attempt).",
+        ref="§4 C03, §10.6"),
     "C04": dict(
         text="Solver-decided kernels of the status <-> header encoding: grpc-status text <-> Code for all byte strings <= 3 bytes and all 17 "
              "codes, Code::from_i32 total over i32, the HTTP-status mapping for all 100..=599, the HTTP/2 error-code mapping for every u32 "
@@ -42,12 +45,14 @@ CLAIMS = {
              "entry (the real HeaderMap remove/clone paths and percent-encoding do not get through CBMC here; see DESIGN §2 P29-P33).",
         ref="§4 C04"),
     "C05": dict(
-        text="Compressed-flag rule (flag 1 without negotiated encoding => INTERNAL, flag >= 2 => INTERNAL) for all 8-byte buffers and all "
-             "limits; EnabledCompressionEncodings set/order semantics and the exact grpc-accept-encoding text for every enable() history "
-             "of <= 4 calls.",
-        note="Outside: from_accept_encoding_header / from_encoding_header behind a HeaderMap lookup of the 20-character name (listed as "
-             "optional harnesses: they are attempted and reported inconclusive when they do not finish), server/client Grpc plumbing.",
-        ref="§4 C05"),
+        text="Compressed-flag rule on the receive side for all prefixes and limits (no negotiated encoding: flag 1 => INTERNAL; negotiated: "
+             "flag 1 selects exactly that encoding, flag 0 identity, flag >= 2 INTERNAL); the decompressor/compressor is called with the "
+             "negotiated/announced encoding (abstract codec); the send side writes flag 1 exactly when an encoding is in force; "
+             "EnabledCompressionEncodings set semantics (enable/is_enabled/is_empty/pop) for every history of <= 4 calls; no encoding is "
+             "chosen when the request offers none.",
+        note="Outside: from_accept_encoding_header / from_encoding_header with a header present and the grpc-accept-encoding text (thorough-tier "
+             "attempts: header lookups + str::split/trim on heap data do not finish), server/client Grpc plumbing.",
+        ref="§4 C05, §10.6"),
     "C06": dict(
         text="Exact limit comparison on both sides for ALL limits (any Option<usize>) and all declared lengths up to 2^32-1: decode accepts "
              "iff BE length <= limit, refuses with OUT_OF_RANGE in the call that consumed the prefix without growing the buffer; encode "
